@@ -26,8 +26,9 @@ from rsparse import ParseError
 
 FILE = "src/lib.rs"
 NAT, LAYOUT, VAL, CLO, SLICEV, SRC, LAYRES, UNIT = "nat", "layout", "val", "clo", "slicev", "src", "layres", "unit"
-ITER, OPTVAL = "iter", "optval"     # an `ExactSizeIterator` (its items, and what its `len()` claims); `Option<T>`
-LEAN_TY = {NAT: "Nat", VAL: "RsT.Val", CLO: "RsT.Clo", SLICEV: "(Nat × Nat)", SRC: "(List RsT.Val)", UNIT: "Unit", LAYOUT: "Rs.Layout"}
+ITER, OPTVAL = "iter", "optval"
+CHUNKT, RESREF, USERRES = "chunk", "resref", "userres"   # a chunk footer (snapshot); `&mut Result<T, E>` in the arena; the caller-level `Result<&mut T, E>`     # an `ExactSizeIterator` (its items, and what its `len()` claims); `Option<T>`
+LEAN_TY = {"usersl": "(Except RsT.Val (Nat × Nat))", USERRES: "(Except RsT.Val Nat)", CHUNKT: "Chunk", NAT: "Nat", VAL: "RsT.Val", CLO: "RsT.Clo", SLICEV: "(Nat × Nat)", SRC: "(List RsT.Val)", UNIT: "Unit", LAYOUT: "Rs.Layout"}
 
 
 class Untranslatable(Exception):
@@ -58,6 +59,10 @@ FUNCS = [
     ("try_alloc_slice_fill_default", "pub fn try_alloc_slice_fill_default", "t_try_alloc_slice_fill_default", True, [("#default", "trait"), ("len", NAT)], SLICEV),
     ("alloc_slice_fill_iter", "pub fn alloc_slice_fill_iter", "t_alloc_slice_fill_iter", True, [("iter", ITER)], SLICEV),
     ("try_alloc_slice_fill_iter", "pub fn try_alloc_slice_fill_iter", "t_try_alloc_slice_fill_iter", True, [("iter", ITER)], SLICEV),
+    ("alloc_slice_try_fill_with", "pub fn alloc_slice_try_fill_with", "t_alloc_slice_try_fill_with", "tryfill", [("len", NAT), ("f", CLO)], "usersl"),
+    ("alloc_slice_try_fill_iter", "pub fn alloc_slice_try_fill_iter", "t_alloc_slice_try_fill_iter", "tryfill", [("iter", ITER)], "usersl"),
+    ("alloc_try_with", "pub fn alloc_try_with", "t_alloc_try_with", "result", [("f", CLO)], USERRES),
+    ("try_alloc_try_with", "pub fn try_alloc_try_with", "t_try_alloc_try_with", "result", [("f", CLO)], USERRES),
 ]
 METHODS = {}      # rust method name -> (lean name, generic, ret) of the translated methods of `Bump`
 
@@ -79,7 +84,19 @@ class T:
         """the element type in scope: (esz, eal) terms"""
         if not self.generic:
             raise Untranslatable("no type parameter in scope")
+        if self.generic == "result":
+            return "rsz", "ral"
         return "esz", "eal"
+
+    def tparams(self):
+        if self.generic == "result": return "(rsz ral okOff : Nat) (isOk : RsT.Val → Bool) "
+        if self.generic == "tryfill": return "(esz eal : Nat) (isOk : RsT.Val → Bool) "
+        return "(esz eal : Nat) " if self.generic else ""
+
+    def targs(self):
+        if self.generic == "result": return "rsz ral okOff isOk "
+        if self.generic == "tryfill": return "esz eal isOk "
+        return "esz eal " if self.generic else ""
 
     def bindc(self, call, ty, k):
         r = self.fresh("r")
@@ -116,6 +133,18 @@ class T:
         if kind == "macro" and e[1] == "debug_assert_eq":
             return self.X(e[2][0], env, lambda a, ta: self.X(e[2][1], env, lambda b, tb:
                           f"(if {a} == {b} then\n{k('()', UNIT)}\nelse {self.bad('debug_assert_eq!')})"))
+        if kind == "field":
+            if e[1] == ("path", ["self"]) and e[2] == "current_chunk_footer":
+                return k("(t.st.a.cur E)", ("cell", CHUNKT))
+
+            def kfld(v, tv):
+                if tv == CHUNKT and e[2] == "ptr": return k(f"{v}.ptr", ("cell", NAT))
+                raise Untranslatable(f"field .{e[2]} of {tv}")
+            return self.X(e[1], env, kfld)
+        if kind == "match":
+            return self.MATCH_RESULT(e, env, k)
+        if kind == "return":
+            return self.X(e[1], env, lambda v, tv: f"(t, Outcome.ok {v})")
         if kind == "for":
             return self.FOR(e, env, k)
         if kind == "foriter":
@@ -150,7 +179,17 @@ class T:
             if segs[-1] == "from_utf8_unchecked_mut" and len(args) == 1:
                 return self.X(args[0], env, k)
             if segs == ["Ok"] and len(args) == 1:
+                if self.generic in ("result", "tryfill"):
+                    return self.X(args[0], env, lambda v, tv: k(f"(Except.ok {v})", self.ret))
                 return self.X(args[0], env, k)
+            if segs == ["NonNull", "from"] and len(args) == 1:
+                return self.X(args[0], env, k)
+            if segs == ["Err"] and len(args) == 1:
+                return self.X(args[0], env, lambda v, tv: k(f"(Except.error {v})", self.ret))
+            if segs == ["AllocOrInitError", "Init"] and len(args) == 1:
+                return self.X(args[0], env, k)
+            if segs[-2:] == ["ptr", "read"] and len(args) == 1:
+                return self.X(args[0], env, k)       # `ptr::read(e)`: the value `e` refers to
             if segs == ["T", "default"] and not args and "#default" in env:
                 return self.bindc("tdefault", VAL, k)
             if len(segs) == 1 and segs[0] in env and env[segs[0]][1] == CLO:
@@ -165,6 +204,8 @@ class T:
         if kind == "mcall":
             recv, name, args = e[1], e[2], e[3]
             if recv == ("path", ["self"]):
+                if name == "dealloc" and len(args) == 2:
+                    return self.X(args[0], env, lambda p_, tp_: self.X(args[1], env, lambda l, tl: self.bindc(f"RsT.liftS (Gen.Fn.dealloc E M {p_} {l})", UNIT, k)))
                 if name in ("alloc_layout", "try_alloc_layout") and len(args) == 1:
                     return self.X(args[0], env, lambda l, tl: self.bindc(f"RsT.liftS (Gen.Fn.{name} E M {l})", NAT, k))
                 if name in METHODS:
@@ -175,7 +216,9 @@ class T:
                             tys = ""
                             if generic:
                                 # the callee's `T`: the caller's, or `u8` when the argument is the bytes of a `&str`
-                                if self.generic: tys = "esz eal"
+                                if self.generic == "result": tys = "rsz ral"
+                                elif generic == "tryfill": tys = "esz eal isOk"
+                                elif self.generic: tys = "esz eal"
                                 else: tys = "1 1"
                             return self.bindc(f"Gen.Fn.{lean} E M {tys} {' '.join(acc)}", ret, k)
                         return self.X(args[i], env, lambda a, ta: kargs(i + 1, acc + [a]))
@@ -184,6 +227,9 @@ class T:
 
             def kr(t, ty):
                 if name in ("cast", "as_ptr") and not args and ty == NAT: return k(t, NAT)
+                if name == "get" and not args and isinstance(ty, tuple) and ty[0] == "cell": return k(t, ty[1])
+                if name == "as_ref" and not args and ty == CHUNKT: return k(t, CHUNKT)
+                if name == "as_mut" and not args and ty == NAT and self.generic == "result": return k(t, RESREF)
                 if name == "clone" and not args and ty == VAL and "#clone" in env: return self.bindc(f"tclone {t}", VAL, k)
                 if name == "into_iter" and not args and ty == ITER: return k(t, ITER)
                 if name == "len" and not args and ty == ITER: return k(f"{t}_claimed", NAT)
@@ -216,15 +262,57 @@ class T:
         captured = [(ln, ty) for kk, (ln, ty) in env.items() if ty in LEAN_TY and not kk.startswith("#")]
         cparams = " ".join(f"({ln} : {LEAN_TY[ty]})" for ln, ty in captured)
         cargs = " ".join(ln for ln, _ in captured)
-        tys = "(esz eal : Nat) " if self.generic else ""
-        targs = "esz eal " if self.generic else ""
+        tys, targs = self.tparams(), self.targs()
         i, rest = self.fresh("i"), self.fresh("rest")
         envl = dict(env); envl[pat[1]] = (i, NAT)
         again = f"(Gen.Fn.{name} E M {targs}{cargs} {rest} ({i} + 1) t)"
         inner = self.B(body, envl, lambda t_, ty_, e2: again)
+        if mentions_return(body):
+            # the body may leave the function: the loop function has the function's own result type and what follows the loop is
+            # translated inside its exit branch
+            after = k("()", UNIT)
+            self.defs.append(f"def {name} (E M : Nat) {tys}{cparams} : Nat → Nat → RsT.TS → RsT.TS × Outcome {LEAN_TY[self.ret]}\n"
+                             f"  | 0, _, t =>\n" + indent(after, 2) + f"\n  | {rest} + 1, {i}, t =>\n" + indent(inner, 2) + "\n")
+            return self.X(rng[2], env, lambda n, tn: f"(Gen.Fn.{name} E M {targs}{cargs} {n} 0 t)")
         self.defs.append(f"def {name} (E M : Nat) {tys}{cparams} : Nat → Nat → RsT.TS → RsT.TS × Outcome Unit\n"
                          f"  | 0, _, t => (t, Outcome.ok ())\n  | {rest} + 1, {i}, t =>\n" + indent(inner, 2) + "\n")
         return self.X(rng[2], env, lambda n, tn: self.bindc(f"Gen.Fn.{name} E M {targs}{cargs} {n} 0", UNIT, k))
+
+    def MATCH_RESULT(self, e, env, k):
+        """`match r { Ok(t) => A, Err(e) => B }` on the `&mut Result<T, E>` just written into the arena: the value is what the
+        last write to that address stored (`RsT.read_val`; nothing there is `bad`); `isOk` says which variant it is, the `Ok`
+        payload lives `okOff` bytes into the `Result`.  The statements of the `Err` arm (the rewind) are the region the main
+        translator turns into `Gen.Fn.<fn>_rewind` (Gen/FnRewind.lean), called here on the arena state."""
+        _, scrut, arms = e
+        if len(arms) != 2 or arms[0][0][:2] != ("pts", ["Ok"]) or arms[1][0][:2] != ("pts", ["Err"]) or self.generic not in ("result", "tryfill"):
+            raise Untranslatable("match shape")
+        okv, errv = arms[0][0][2][0][1], arms[1][0][2][0][1]
+        if self.generic == "tryfill":
+            # `match f(i) { Ok(el) => A, Err(e) => B }` on the `Result<T, E>` the closure returned by value: `isOk` tells the variant;
+            # the payload is the same opaque token
+            def kv(v, tv):
+                if tv != VAL: raise Untranslatable("match on this value")
+                e_ok = dict(env); e_ok[okv] = (v, VAL)
+                e_err = dict(env); e_err[errv] = (v, VAL)
+                return f"(if isOk {v} then\n{self.X(arms[0][2], e_ok, k)}\nelse\n{self.X(arms[1][2], e_err, k)})"
+            return self.X(scrut, env, kv)
+
+        def ks(p, tp_):
+            if tp_ != RESREF: raise Untranslatable("match on this value")
+            v = self.fresh("v")
+            e_ok = dict(env); e_ok[okv] = (f"({p} + okOff)", NAT)
+            e_err = dict(env); e_err[errv] = (v, VAL)
+            okb = self.X(arms[0][2], e_ok, k)
+            blk = arms[1][2]
+            while blk[0] == "unsafe": blk = blk[1]
+            if blk[0] != "block" or blk[2] is None: raise Untranslatable("Err arm shape")
+            need = ("rewind_footer", "rewind_ptr")
+            if any(n not in env for n in need): raise Untranslatable("rewind locals")
+            tail = self.X(blk[2], e_err, k)
+            errb = (f"(RsT.bind (RsT.liftS (Gen.Fn.{self.name}_rewind E M {env['rewind_footer'][0]} {env['rewind_ptr'][0]} {p}) t) fun t _ =>\n{tail})")
+            return (f"(match RsT.read_val {p} t with\n| none => {self.bad('read of a slot nothing was written to')}\n| some {v} =>\n"
+                    f"(if isOk {v} then\n{okb}\nelse\n{errb}))")
+        return self.X(scrut, env, ks)
 
     def FORENUM(self, e, env, k):
         """`for (i, val) in src.iter().cloned().enumerate() { … }`: recursive on the list, the index counted up; the element is
@@ -273,6 +361,14 @@ class T:
         return go(0, env)
 
 
+def mentions_return(e):
+    if isinstance(e, tuple):
+        return (len(e) > 0 and e[0] == "return") or any(mentions_return(x) for x in e)
+    if isinstance(e, list):
+        return any(mentions_return(x) for x in e)
+    return False
+
+
 def indent(text, base=1):
     out, depth = [], 0
     for line in text.split("\n"):
@@ -289,6 +385,7 @@ def indent(text, base=1):
 
 HEADER = """import BumpVerif.Model.RsTyped
 import BumpVerif.Gen.FnGlue
+import BumpVerif.Gen.FnRewind
 /-! GENERATED by tools/rs2lean_typed.py from /repo/src/lib.rs — do not edit.
 The typed allocation methods of `Bump` (`alloc`, `alloc_with`, `alloc_slice_copy`, `alloc_str`, `alloc_slice_fill_with`, … and their
 `try_` twins), translated statement by statement over the translated `alloc_layout` / `try_alloc_layout`. -/
@@ -314,9 +411,10 @@ def translate_all(repo):
             sig, body = rsparse.find_fn(src, name, 0, anchor)
             outer = lean if name != "inner_writer" else lean
             t = T(name, lean, generic, lean)
+            t.ret = ret
             env = {n: (n, ty) for n, ty in params}
             text = t.B(body, env, lambda v, ty, e2: f"(t, Outcome.ok {v})")
-            tys = "(esz eal : Nat) " if generic else ""
+            tys = t.tparams()
             pl = []
             for n, ty in params:
                 if n == "#clone": pl.append("(tclone : RsT.Val → RsT.TS → RsT.TS × Outcome RsT.Val)")
